@@ -82,6 +82,16 @@ enum Op {
     Sum(usize, usize),
     Rot(usize),
     SplitBy(usize),
+    First,       // first() right now (before anything else pushes the root's pending modification)
+    Last,
+    Flat(u64),   // overwrite the (public) priorities: 0 = all equal, 1 = equal within a level - heap-ordered, full of ties
+}
+fn flatten(n: &mut Option<Box<TreapNode<It>>>, mode: u64, depth: u32) {
+    if let Some(b) = n {
+        b.priority = if mode == 0 { 7 } else { 1000 * depth };
+        flatten(&mut b.left, mode, depth + 1);
+        flatten(&mut b.right, mode, depth + 1);
+    }
 }
 
 fn heap_ok(n: &Option<Box<TreapNode<It>>>) -> Option<bool> {
@@ -136,6 +146,13 @@ fn exec(ops: &[Op], heap_only: bool) -> Option<(String, String)> {
                         return Some((format!("remove_at({}) returned {}", p, got), format!("{}", want)));
                     }
                 }
+                Op::First | Op::Last => {
+                    let (got, want_) = if matches!(o, Op::First) { (t.first().map(|i| i.x), v.first().copied()) } else { (t.last().map(|i| i.x), v.last().copied()) };
+                    if got != want_ && !heap_only {
+                        return Some((format!("{} = {:?}", if matches!(o, Op::First) { "first()" } else { "last()" }, got), format!("{:?}", want_)));
+                    }
+                }
+                Op::Flat(mode) => flatten(&mut t.root, *mode, 0),
                 Op::Mod(..) | Op::Sum(..) if v.is_empty() => {}
                 Op::Mod(l, r, a, c) => {
                     let l = l % v.len();
@@ -251,6 +268,9 @@ fn enc(ops: &[Op]) -> String {
         Op::Sum(l, r) => format!("q{}-{}", l, r),
         Op::Rot(k) => format!("v{}", k),
         Op::SplitBy(k) => format!("p{}", k),
+        Op::First => "F0".to_string(),
+        Op::Last => "L0".to_string(),
+        Op::Flat(m) => format!("t{}", m),
     }).collect::<Vec<_>>().join(";")
 }
 fn dec(s: &str) -> Vec<Op> {
@@ -265,6 +285,9 @@ fn dec(s: &str) -> Vec<Op> {
             "q" => Op::Sum(num(parts[0]) as usize, num(parts.get(1)?) as usize),
             "v" => Op::Rot(num(parts[0]) as usize),
             "p" => Op::SplitBy(num(parts[0]) as usize),
+            "F" => Op::First,
+            "L" => Op::Last,
+            "t" => Op::Flat(num(parts[0])),
             _ => return None,
         })
     }).collect()
@@ -426,6 +449,8 @@ pub fn run(seed: u64, replay: Option<String>, heap_only: bool) -> Outcome {
             for tail in 0..4 {
                 let mut ops: Vec<Op> = (0..n).map(|i| Op::Ins(if i % 2 == 0 { i } else { 0 }, 10 + i as u64)).collect();
                 ops.push(Op::Mod(0, n - 1, 3, 5));
+                if (n + k) % 3 == 0 { ops.push(Op::Flat(((n + k) / 3 % 2) as u64)); }
+                if tail == 1 { ops.push(if k % 2 == 0 { Op::Last } else { Op::First }); }
                 ops.push(match tail { 0 => Op::SplitBy(k), 1 => Op::Sum(k.min(n - 1), n - 1), 2 => Op::Rem(k), _ => Op::Ins(k, 77) });
                 ops.push(Op::Mod(0, n - 1, 2, 1));
                 ops.push(Op::SplitBy(n - k));
@@ -440,7 +465,9 @@ pub fn run(seed: u64, replay: Option<String>, heap_only: bool) -> Outcome {
         let len = 2 + rng.below(22) as usize;
         let mut ops = Vec::new();
         for _ in 0..len {
-            ops.push(match rng.below(8) {
+            ops.push(match rng.below(10) {
+                8 => if rng.below(2) == 0 { Op::First } else { Op::Last },
+                9 => Op::Flat(rng.below(2)),
                 0 | 1 | 2 => Op::Ins(rng.below(8) as usize, rng.below(50)),
                 3 => Op::Rem(rng.below(8) as usize),
                 4 | 5 => Op::Mod(rng.below(8) as usize, rng.below(8) as usize, 1 + rng.below(5), rng.below(7)),
